@@ -84,7 +84,10 @@ def opPfScope (args : List SExp) : Option OpResult := do
         pure ⟨impl, fun got => mustEqual "C11" cls want got ++
           (if foreign && got.startsWith "207" && got != "207 ( )" then [("C12", s!"{server}-foreign-path-exposes-resources")] else []) ++
           -- a path answered at the wrong level (a multi-status where none is due or the reverse) is a routing defect
-          (if got != want && (got.startsWith "207") != (want.startsWith "207") then [("C12", s!"{cls}-routed-to-another-level")] else [])⟩
+          (if got != want && (got.startsWith "207") != (want.startsWith "207") then [("C12", s!"{cls}-routed-to-another-level")]
+           -- …and so is any other status than the one the level of the path calls for (a redirect, say, because of the
+           -- NAME of a segment)
+           else if (got.take 3).toString != (want.take 3).toString then [("C12", s!"{cls}-answered-{got.take 3}-where-{want.take 3}-is-due")] else [])⟩
   | _ => none
 
 /-- `pf.prin <principal> ( ( cal|card <path> ) … ) => ( ( cal <href> ) ( card <href> ) ( cup <href> ) )`: the principal
